@@ -104,6 +104,22 @@ fn walk_len_i(t: &[u8]) -> Option<Vec<(u16, Vec<u8>)>> {
     Some(out)
 }
 
+/// harness-side framing of Applesoft lines (independent of the Lean model): None on 16-bit overflow
+fn assemble_a(base: u16, lines: &[(u16, Vec<u8>)]) -> Option<Vec<u8>> {
+    let mut out = Vec::new();
+    let mut addr = base as usize;
+    for (n, b) in lines {
+        addr += b.len() + 5;
+        if addr > 65535 { return None; }
+        out.push((addr & 0xff) as u8); out.push((addr >> 8) as u8);
+        out.push((*n & 0xff) as u8); out.push((*n >> 8) as u8);
+        out.extend_from_slice(b);
+        out.push(0);
+    }
+    out.push(0); out.push(0);
+    Some(out)
+}
+
 /// remove the blanks directly after REM / DATA tokens of an Applesoft line body
 fn strip_head_a(b: &[u8]) -> Vec<u8> {
     let mut out = Vec::new();
@@ -168,7 +184,7 @@ const I_KEYWORDS: [&str; 50] = ["REM", "RUN", "DEL", "LIST", "NEW", "CLR", "AUTO
 /// failure class of an Integer BASIC round-trip failure, from the token stream:
 /// a variable name that begins with a keyword (the external grammar is ambiguous there), or a byte in a
 /// string / REM payload that the detokenizer prints in a form the tokenizer does not reproduce
-fn classify_i(t: &[u8], generic: &str) -> String {
+fn classify_i(t: &[u8], generic: &str, listing_rejected: bool) -> String {
     let mut escape_class = false;
     if let Some(lines) = walk_len_i(t) {
         for (_, b) in lines {
@@ -190,6 +206,21 @@ fn classify_i(t: &[u8], generic: &str) -> String {
                     while i < b.len() && b[i] >= 0x80 { name.push((b[i] - 0x80) as char); i += 1; }
                     if I_KEYWORDS.iter().any(|k| name.starts_with(k)) { return "c14/integer/name-begins-with-keyword".to_string(); }
                 }
+            }
+        }
+    }
+    // `IF <number> THEN`: the external grammar reads `IF8…` of the listing as a variable name (typed `IF 08` is accepted)
+    if !listing_rejected { return if escape_class { "c14/integer/escaped-byte-not-reproduced".to_string() } else { generic.to_string() }; }
+    if let Some(lines) = walk_len_i(t) {
+        for (_, b) in lines {
+            let mut i = 0;
+            while i < b.len() {
+                let c = b[i];
+                i += 1;
+                if c == 0x28 { while i < b.len() && b[i] != 0x29 { i += 1; } i += 1; }
+                else if c == 0x5D { break; }
+                else if (0xB0..=0xB9).contains(&c) { i += 2; }
+                else if c == 0x60 && i < b.len() && (0xB0..=0xB9).contains(&b[i]) { return "c14/integer/if-number-reparsed".to_string(); }
             }
         }
     }
@@ -217,6 +248,46 @@ fn norm_code_a(src: &str) -> Vec<String> {
     out
 }
 
+/// Signature of an Integer BASIC program-level failure, found line by line (lines are independent):
+/// the failure is attributed to one of the known ambiguities of the external grammar only if every
+/// failing line is of that kind; any other failing line decides the signature.
+fn integer_sig(src: &str, generic: &str) -> String {
+    let known = ["c14/integer/name-begins-with-keyword", "c14/integer/if-number-reparsed"];
+    let mut sigs: Vec<String> = Vec::new();
+    for line in src.lines() {
+        if line.trim().is_empty() { continue; }
+        let l = format!("{}\n", line);
+        if !accepted_i(&l) { continue; }
+        let t = match tok_i(&l) { Ok(Ok(t)) => t, _ => continue };
+        let s = match detok_i(&t) { Ok(Ok(s)) => s, _ => { sigs.push(generic.to_string()); continue; } };
+        if !accepted_i(&s) { sigs.push(classify_i(&t, generic, true)); continue; }
+        let same = match tok_i(&s) {
+            Ok(Ok(t2)) => {
+                let a = walk_len_i(&t).map(|l| l.into_iter().map(|(n, b)| (n, strip_head_i(&b))).collect::<Vec<_>>());
+                let b = walk_len_i(&t2).map(|l| l.into_iter().map(|(n, b)| (n, strip_head_i(&b))).collect::<Vec<_>>());
+                a.is_some() && a == b
+            }
+            _ => false,
+        };
+        if !same { sigs.push(classify_i(&t, generic, false)); }
+    }
+    if let Some(s) = sigs.iter().find(|s| !known.contains(&s.as_str())) { return s.clone(); }
+    sigs.first().cloned().unwrap_or(generic.to_string())
+}
+
+/// Merlin listing modulo the amount of column padding: runs of blanks collapsed (as the driver op `detokM` does)
+fn show_detok_m(r: &Result<Result<String, String>, String>) -> String {
+    match r {
+        Ok(Ok(s)) => {
+            let mut out: Vec<u8> = Vec::new();
+            for b in s.bytes() { if b == 32 && out.last() == Some(&32) { continue; } out.push(b); }
+            format!("ok {}", hx(&out))
+        }
+        Ok(Err(_)) => "err".to_string(),
+        Err(_) => "panic".to_string(),
+    }
+}
+
 fn nat_list(v: &[u16]) -> String {
     if v.is_empty() { "-".to_string() } else { v.iter().map(|n| n.to_string()).collect::<Vec<_>>().join(",") }
 }
@@ -224,7 +295,9 @@ fn nat_list(v: &[u16]) -> String {
 // ------------------------------------------------------------------------------------------------
 // source generators
 
-struct Gen { r: Rng, lower: usize, tight: usize, inner: usize }
+struct Gen { r: Rng, lower: usize, tight: usize, inner: usize, neg: bool }
+
+const HEXCH: &[u8] = b"0123456789ABCDEFabcdef";
 
 const NAMES: [&str; 22] = ["A", "B", "I", "J", "K", "X", "Y", "Z", "X1", "Y2", "AB", "N9", "Q", "ZZ", "LAST", "C3PO", "COUNT", "NAME", "W8", "PI", "MAX", "HI"];
 /// names that embed a keyword (valid only where the split reads as an expression)
@@ -233,7 +306,7 @@ const SPCH: &[u8] = b"+-*/^=<>().;%$#?&'@![]{}|_`~,:";
 
 impl Gen {
     fn new(r: Rng) -> Self {
-        let mut g = Gen { r, lower: 0, tight: 0, inner: 0 };
+        let mut g = Gen { r, lower: 0, tight: 0, inner: 0, neg: false };
         g.lower = *g.r.pick(&[0usize, 0, 100, 50]);
         g.tight = *g.r.pick(&[0usize, 20, 60, 100]);
         g.inner = *g.r.pick(&[0usize, 0, 0, 8]);
@@ -270,7 +343,9 @@ impl Gen {
     }
     fn int(&mut self, max: usize) -> String {
         let v = match self.r.below(6) { 0 => self.r.below(10), 1 => self.r.below(256), 2 => max, 3 => 0, _ => self.r.below(max + 1) };
-        let s = v.to_string();
+        let mut s = v.to_string();
+        // leading zeros: the value, not the typed digits, decides what is stored
+        if self.r.chance(12) { s = format!("{}{}", self.r.pick(&["0", "00", "000"]), s); }
         if self.inner > 0 && s.len() > 1 && self.r.chance(10) { format!("{} {}", &s[..1], &s[1..]) } else { s }
     }
     fn linenum(&mut self) -> String { self.int(63999) }
@@ -288,6 +363,22 @@ impl Gen {
                     if self.r.chance(50) { s += &format!("\\x{:02x}", b); } else { s += &format!("\\x{:02X}", b); }
                 }
                 1 => { s.push('\\'); if self.r.chance(30) { s += "x5"; } if self.r.chance(20) { s += "\\x5Cx4"; } }
+                8 => {
+                    // a literal backslash followed by text that looks like a hex escape (every hex digit, both cases)
+                    let h1 = *self.r.pick(HEXCH) as char;
+                    let h2 = *self.r.pick(HEXCH) as char;
+                    if self.neg {
+                        // Integer BASIC: negative backslash, negative lower case x (only writable as escapes), digits
+                        let neg = |c: char| -> String { if c.is_ascii_lowercase() { format!("\\x{:02x}", c as u8 + 128) } else { c.to_string() } };
+                        s += &format!("\\xdc\\xf8{}{}", neg(h1), neg(h2));
+                    } else {
+                        match self.r.below(4) {
+                            0 | 1 => s += &format!("\\x5Cx{}{}", h1, h2),
+                            2 => s += &format!("\\x5cx{}", h1),
+                            _ => s += &format!("\\x5c\\x5cx{}{}", h1, h2),
+                        }
+                    }
+                }
                 2 => s.push(' '),
                 3 => {
                     let c = *self.r.pick(SPCH);
@@ -590,7 +681,7 @@ fn pick_addr(r: &mut Rng) -> u16 {
 // ------------------------------------------------------------------------------------------------
 
 fn run_applesoft(ctx: &mut Ctx, rng: &mut Rng) {
-    let n = ctx.n(5000, 40000);
+    let n = ctx.n(3500, 40000);
     for idx in 0..n {
         let mut r = rng.fork(idx as u64);
         if !ctx.out.wants(idx) { continue; }
@@ -675,6 +766,18 @@ fn applesoft_case(ctx: &mut Ctx, idx: usize, src: &str, addr: u16, nums: Option<
     if acc {
         match tok_a(&s, 2049) {   // bodies do not depend on the load address; 2049 avoids the 64K overflow
             Ok(Ok(t2)) => {
+                // reference re-tokenizer of the model on the REAL listing vs the real tokenizer (head blanks stripped),
+                // and the model's `stripHead` vs the harness-side one
+                if let Some(l2) = split_a(&t2) {
+                    let stripped: Vec<(u16, Vec<u8>)> = l2.into_iter().map(|(n, b)| (n, strip_head_a(&b))).collect();
+                    if let Some(exp) = assemble_a(2049, &stripped) { ctx.out.q(&format!("c14 retokA 2049 {}", hx(s.as_bytes())), &format!("ok {}", hx(&exp))); }
+                }
+                let stripped0: Vec<(u16, Vec<u8>)> = lines0.iter().map(|(n, b)| (*n, strip_head_a(b))).collect();
+                if let Some(exp) = assemble_a(2049, &stripped0) { ctx.out.q(&format!("c14 stripA 2049 {}", hx(&t0)), &format!("ok {}", hx(&exp))); }
+                if !long_line && !many && t0.len() <= 65533 {
+                    ctx.out.q(&format!("c14 classA 2049 {}", hx(&t0)), "true");
+                    ctx.out.q(&format!("c14 rtA 2049 {}", hx(&t0)), "holds");
+                }
                 let a: Option<Vec<(u16, Vec<u8>)>> = split_a(&t).map(|l| l.into_iter().map(|(n, b)| (n, strip_head_a(&b))).collect());
                 let b: Option<Vec<(u16, Vec<u8>)>> = split_a(&t2).map(|l| l.into_iter().map(|(n, b)| (n, strip_head_a(&b))).collect());
                 let same = a.is_some() && a == b;
@@ -700,6 +803,7 @@ fn applesoft_case(ctx: &mut Ctx, idx: usize, src: &str, addr: u16, nums: Option<
 
 struct IG { g: Gen }
 impl IG {
+    fn new(r: Rng) -> Self { let mut g = Gen::new(r); g.neg = true; IG { g } }
     fn iname(&mut self) -> String {
         let n = if self.g.r.chance(85) { self.g.r.pick(&["A", "B", "I", "J", "K", "X", "Y", "Z", "X1", "Y2", "N9", "Q", "ZZ", "C3", "W8", "PI", "SUM", "CNT", "LEVEL", "HIGH", "BALL", "SCORE", "TOTAL"]).to_string() } else { self.g.name() };
         self.g.case(&n)
@@ -825,14 +929,14 @@ impl IG {
 }
 
 fn run_integer(ctx: &mut Ctx, rng: &mut Rng) {
-    let n = ctx.n(5000, 40000);
+    let n = ctx.n(3500, 40000);
     for k in 0..n {
         let idx = 100000 + k;
         let mut r = rng.fork(idx as u64);
         if !ctx.out.wants(idx) { continue; }
         let nlines = 1 + r.below(6);
         let nums = line_numbers(&mut r, nlines, 32767);
-        let mut ig = IG { g: Gen::new(r.fork(1)) };
+        let mut ig = IG::new(r.fork(1));
         let mut src = String::new();
         let whole = r.chance(10);
         let mut kept = Vec::new();
@@ -880,17 +984,17 @@ fn integer_case(ctx: &mut Ctx, idx: usize, src: &str, nums: Option<&[u16]>) {
         Err(p) => { ctx.out.oracle(false, "detokenize", &psig(&p), &case); return; }
     };
     let acc = accepted_i(&s);
-    ctx.out.oracle(acc, "reaccepted", &classify_i(&t, "c14/integer/detokenized-rejected"), &format!("{} detok={:?}", case, s));
+    ctx.out.oracle(acc, "reaccepted", &integer_sig(src, "c14/integer/detokenized-rejected"), &format!("{} detok={:?}", case, s));
     if acc {
         match tok_i(&s) {
             Ok(Ok(t2)) => {
                 let a = walk_len_i(&t).map(|l| l.into_iter().map(|(n, b)| (n, strip_head_i(&b))).collect::<Vec<_>>());
                 let b = walk_len_i(&t2).map(|l| l.into_iter().map(|(n, b)| (n, strip_head_i(&b))).collect::<Vec<_>>());
                 let same = a.is_some() && a == b;
-                ctx.out.oracle(same, "roundtrip", &classify_i(&t, "c14/integer/retokenize-differs"), &format!("{} detok={:?}", case, s));
+                ctx.out.oracle(same, "roundtrip", &integer_sig(src, "c14/integer/retokenize-differs"), &format!("{} detok={:?}", case, s));
                 if t2 == t { ctx.out.count("integer/roundtrip-identical"); } else if same { ctx.out.count("integer/roundtrip-modulo-head-blanks"); }
             }
-            Ok(Err(_)) => ctx.out.oracle(false, "roundtrip", &classify_i(&t, "c14/integer/detokenized-not-tokenizable"), &case),
+            Ok(Err(_)) => ctx.out.oracle(false, "roundtrip", &integer_sig(src, "c14/integer/detokenized-not-tokenizable"), &case),
             Err(p) => ctx.out.oracle(false, "roundtrip", &psig(&p), &case),
         }
     }
@@ -956,6 +1060,21 @@ fn run_merlin(ctx: &mut Ctx, rng: &mut Rng) {
         let shape = t.iter().all(|b| *b >= 0x80 || *b == 0x20) && t.last() == Some(&0x8d)
             && t.iter().filter(|b| **b == 0x8d).count() == src.lines().count();
         ctx.out.oracle(shape, "structure", "c14/merlin/stream-shape-wrong", &case);
+        // model of the line format / detokenizer / column formatter vs the real functions
+        ctx.out.q(&format!("c14 wfM {}", hx(&t)), "true");
+        ctx.out.q(&format!("c14 detokM {}", hx(&t)), &show_detok_m(&detok_m(&t)));
+        {
+            // and on damaged streams (outcome classes ok / err)
+            let mut d = t.clone();
+            match r.below(5) {
+                0 => { let i = r.below(d.len()); d[i] = r.byte(); }
+                1 => { let i = r.below(d.len()); d[i] = *r.pick(&[0xa0u8, 0x8d, 0x20, 0x09, 0xbb, 0x41, 0x00, 0xff, 0x80]); }
+                2 => { let n = r.below(d.len() + 1); d.truncate(n); }
+                3 => { let i = r.below(d.len()); let k = 1 + r.below(12); for _ in 0..k { d.insert(i, 0xa0 + r.below(0x5f) as u8); } }
+                _ => { let i = r.below(d.len()); d.insert(i, 0xa0); d.insert(i, 0xa0); }
+            }
+            ctx.out.q(&format!("c14 detokM {}", hx(&d)), &show_detok_m(&detok_m(&d)));
+        }
         match detok_m(&t) {
             Ok(Ok(s)) => {
                 let acc = accepted_m(&s);
@@ -982,7 +1101,7 @@ fn run_raw(ctx: &mut Ctx, rng: &mut Rng) {
         "10 A$=\"\\x0d\\x8d\"+CHR$(4):IF A THEN 10\n", "5 ?\"unterminated\n", "10 DATA \"q\"\"r\", lit : REM x\n"];
     let seeds_i: [&str; 5] = ["10 PRINT \"HELLO\";A,B$\n20 REM hi there\n", "10 FOR I=1 TO 10:NEXT I\n", "1 IF A#1 THEN 10:A=LEN(B$)+ASC(\"A\")\n",
         "10 DIM A$(10),B(5):INPUT \"X\",A$\n", "32767 A=32767:B=-1\n"];
-    let n = ctx.n(6000, 60000);
+    let n = ctx.n(5000, 60000);
     for k in 0..n {
         let idx = 300000 + k;
         let mut r = rng.fork(idx as u64);
@@ -1083,10 +1202,77 @@ fn run_edge(ctx: &mut Ctx) {
     }
 }
 
+/// Deterministic streams for two fine points of the formats.
+/// (1) a literal backslash followed by text that looks like a hex escape must be listed with the
+///     backslash escaped — every pair of hex digits in both cases, in strings, REM and DATA (Applesoft)
+///     and strings / REM (Integer BASIC, negative ASCII);
+/// (2) the header byte of an Integer BASIC number token is `B0 +` the first digit of the VALUE, whatever
+///     was typed (leading zeros, blanks).
+fn run_formats(ctx: &mut Ctx) {
+    let mut k = 0usize;
+    for (i1, h1) in HEXCH.iter().enumerate() {
+        for (i2, h2) in HEXCH.iter().enumerate() {
+            // quick tier: a quarter of the pairs (every digit in both positions, several partners); thorough: all
+            if !ctx.tier_thorough && (i1 + i2) % 4 != 0 { k += 5; continue; }
+            let (c1, c2) = (*h1 as char, *h2 as char);
+            let srcs = [format!("10 PRINT \"\\x5Cx{}{}\";A\n", c1, c2), format!("20 REM \\x5Cx{}{}\n", c1, c2), format!("30 DATA \\x5Cx{}{},1\n", c1, c2)];
+            for src in srcs.iter() {
+                let idx = 420000 + k;
+                k += 1;
+                if ctx.out.wants(idx) { applesoft_case(ctx, idx, src, 2049, None); }
+            }
+            let neg = |c: char| -> String { if c.is_ascii_lowercase() { format!("\\x{:02x}", c as u8 + 128) } else { c.to_string() } };
+            let srcs = [format!("10 PRINT \"\\xdc\\xf8{}{}\";A\n", neg(c1), neg(c2)), format!("20 REM \\xdc\\xf8{}{}\n", neg(c1), neg(c2))];
+            for src in srcs.iter() {
+                let idx = 420000 + k;
+                k += 1;
+                if ctx.out.wants(idx) { integer_case(ctx, idx, src, None); }
+            }
+        }
+    }
+    let lits = ["0", "7", "007", "0100", "00", "32767", "032767", "10", "010", "0009", "100", "1 0", "01 0", "0 0 5", "9999", "00012345"];
+    for (i, lit) in lits.iter().enumerate() {
+        let idx = 430000 + i;
+        if !ctx.out.wants(idx) { continue; }
+        let value: u32 = lit.replace(' ', "").parse().unwrap();
+        for (j, src) in [format!("1 A={}\n", lit), format!("2 GOTO {}\n", lit), format!("3 PRINT {};{}\n", lit, lit)].iter().enumerate() {
+            let case = format!("idx={} lang=integer src={:?}", idx, src);
+            match tok_i(src) {
+                Ok(Ok(t)) => {
+                    // number token = the three bytes after the statement token(s)
+                    let off = if j == 0 { 5 } else { 4 };
+                    if t.len() >= off + 3 {
+                        ctx.out.q(&format!("c14 numI {}", value), &hx(&t[off..off + 3]));
+                        let first_digit = value.to_string().as_bytes()[0] - b'0';
+                        ctx.out.oracle(t[off] == 0xB0 + first_digit && t[off + 1] as u32 + 256 * t[off + 2] as u32 == value,
+                            "number-token", "c14/integer/number-header-not-from-value", &case);
+                    }
+                    integer_case(ctx, idx, src, None);
+                }
+                _ => ctx.out.oracle(false, "number-token", "c14/integer/number-literal-rejected", &case),
+            }
+        }
+    }
+}
+
 pub fn run(ctx: &mut Ctx) {
+    if let Ok(f) = std::env::var("A2V_C14_PROBE") {
+        // debugging aid: one source line per line of the file, prefixed by `A ` / `I ` / `M `
+        for l in std::fs::read_to_string(f).unwrap_or_default().lines() {
+            let (lang, src) = l.split_at(2);
+            let src = format!("{}\n", src);
+            match lang {
+                "A " => eprintln!("{:?} accepted={} tok={:?}", src, accepted_a(&src), tok_a(&src, 2049).map(|r| r.map(|t| hx(&t)))),
+                "I " => eprintln!("{:?} accepted={} tok={:?}", src, accepted_i(&src), tok_i(&src).map(|r| r.map(|t| hx(&t)))),
+                _ => eprintln!("{:?} accepted={} tok={:?}", src, accepted_m(&src), tok_m(&src).map(|r| r.map(|t| hx(&t)))),
+            }
+        }
+        return;
+    }
     let mut rng = Rng::new(ctx.seed);
     run_fixed(ctx);
     run_edge(ctx);
+    run_formats(ctx);
     let mut ra = rng.fork(1);
     run_applesoft(ctx, &mut ra);
     let mut ri = rng.fork(2);
